@@ -6,6 +6,7 @@ MODULES = {
     "C10": "harness.c10_nstep",
     "C09": "harness.c09_replay",
     "C11": "harness.c11_per",
+    "C18": "harness.c18_rainbow",
 }
 
 TECH = "symbolic execution of the real Python functions on z3-backed proxies (re-execution path exploration); each obligation decided per path by z3 as pc ∧ assumptions ∧ ¬obligation; sat models replayed on the real code"
@@ -27,6 +28,11 @@ CLAIMED = {
         "level_note": NOTE,
         "technique": TECH,
     },
+    "C18": {
+        "level_text": "bounded symbolic verification of the real RainbowDQN._dqn_loss and learn on a real agent with stub networks: for all rewards (inside, outside and exactly on atoms), done flags, gamma in [0,1], actions taken, online q-values (ties included), target probabilities >= 0 and online log-probabilities at atoms<=5(9), batch<=2, actions<=2(3), symmetric and asymmetric supports with exactly representable delta_z: the projection recovered from the returned loss has the mass of the target distribution of a greedy next action and the mean of its clipped Bellman image, is non-negative, the per-sample loss is the cross-entropy with the online log-distribution of the action taken; learn() combines 1-step and n-step (gamma^n) losses, returns loss+prior_eps as priorities, passes indices through and steps optimiser and soft update once",
+        "level_note": NOTE + "; support grids are chosen with exactly representable delta_z (float rounding of b=(Tz-v_min)/delta_z is outside the claim)",
+        "technique": TECH,
+    },
     "C17": {
         "level_text": "bounded symbolic verification of the real PPO.learn / IPPO.learn up to the minibatch loop: for all rewards, values, done flags, bootstrap values, log-probs, gamma, lambda at rollout shapes T<=3(5), envs<=2(3), agents<=2(3), the flattened rows handed to the minibatch loop carry, for every (agent, step, env), that triple's observation, action, old log-prob, old value and the GAE advantage/return defined by the statement's recursion (up to a permutation of rows)",
         "level_note": NOTE,
@@ -43,4 +49,4 @@ NOT_APPLICABLE = {
 
 # designed in DESIGN.md §5 but the check is not built/registered yet (moves to CLAIMED when it lands)
 PENDING = {pid: "solver-based check designed (DESIGN.md §5) but not yet built in this tree; not claimed until it is"
-           for pid in ["C03", "C04", "C05", "C06", "C08", "C12", "C13", "C14", "C15", "C16", "C18", "C19"]}
+           for pid in ["C03", "C04", "C05", "C06", "C08", "C12", "C13", "C14", "C15", "C16", "C19"]}
